@@ -120,9 +120,9 @@ def check_basis(case):
 
 
 @st.composite
-def product_cases(draw, tier):
-    hi = 5 if tier == "quick" else 7
-    m, k, n = draw(st.integers(1, hi)), draw(st.integers(1, hi)), draw(st.integers(1, hi))
+def product_cases(draw, tier, size=None):
+    lo_, hi = size or (1, 5 if tier == "quick" else 7)
+    m, k, n = draw(st.integers(lo_, hi)), draw(st.integers(lo_, hi)), draw(st.integers(lo_, hi))
     A, pa = draw(gen.qarray(m, k, None, -60, 60))
     B, pb = draw(gen.qarray(k, n, None, -60, 60))
     if draw(st.integers(0, 7)) == 0:
@@ -311,9 +311,9 @@ def _abs_bound(P, Qq):
 
 
 @st.composite
-def herm_cases(draw, tier):
-    hi = 5 if tier == "quick" else 7
-    m, k, n = draw(st.integers(1, hi)), draw(st.integers(1, hi)), draw(st.integers(1, hi))
+def herm_cases(draw, tier, size=None):
+    lo_, hi = size or (1, 5 if tier == "quick" else 7)
+    m, k, n = draw(st.integers(lo_, hi)), draw(st.integers(lo_, hi)), draw(st.integers(lo_, hi))
     A, pa = draw(gen.qarray(m, k, None, -60, 60))
     B, pb = draw(gen.qarray(k, n, None, -60, 60))
     return {"A": A, "B": B}
@@ -366,9 +366,9 @@ def check_herm(case):
 
 
 @st.composite
-def norm_cases(draw, tier):
-    hi = 5 if tier == "quick" else 7
-    m, k, n = draw(st.integers(1, hi)), draw(st.integers(1, hi)), draw(st.integers(1, hi))
+def norm_cases(draw, tier, size=None):
+    lo_, hi = size or (1, 5 if tier == "quick" else 7)
+    m, k, n = draw(st.integers(lo_, hi)), draw(st.integers(lo_, hi)), draw(st.integers(lo_, hi))
     A, pa = draw(gen.qarray(m, k, None, -60, 60))
     B, pb = draw(gen.qarray(k, n, None, -60, 60))
     Ul = draw(gen.unitary(m))
@@ -448,6 +448,12 @@ PROPERTY = Property(
                shrink=False),
         Clause("hermitian_long_dimension", check_herm, strategy=long_product_cases, budget={"quick": 32, "thorough": 300},
                shrink=False),
+        Clause("product_moderate_size", check_product, strategy=lambda tier: product_cases(tier, size=(9, 16 if tier == "quick" else 32)),
+               budget={"quick": 24, "thorough": 240}, shrink=False),
+        Clause("hermitian_moderate_size", check_herm, strategy=lambda tier: herm_cases(tier, size=(9, 16 if tier == "quick" else 32)),
+               budget={"quick": 16, "thorough": 160}, shrink=False),
+        Clause("frobenius_moderate_size", check_norm, strategy=lambda tier: norm_cases(tier, size=(9, 16 if tier == "quick" else 32)),
+               budget={"quick": 16, "thorough": 160}, shrink=False),
         Clause("kernel_shapes", check_kernel, strategy=kernel_cases, budget={"quick": 400, "thorough": 6000}),
         Clause("hermitian", check_herm, strategy=herm_cases, budget={"quick": 400, "thorough": 6000}),
         Clause("frobenius", check_norm, strategy=norm_cases, budget={"quick": 400, "thorough": 6000}),
